@@ -1,8 +1,613 @@
 package main
 
-// TryReplay turns a solver model into a run of the real code. Returns true when the violation was
-// reproduced against /repo's working tree.
-func TryReplay(e *Engine, r *ObResult, rp map[string]interface{}, verifDir string) bool {
-	rp["replay"] = "no replay adapter for this function: the model is recorded, the real code was not run"
+import (
+	"context"
+	"encoding/json"
+	"fmt"
+	"go/types"
+	"os"
+	"os/exec"
+	"path/filepath"
+	"sort"
+	"strconv"
+	"strings"
+	"time"
+
+	"golang.org/x/tools/go/ssa"
+)
+
+// Replay: a solver model of a failed postcondition is turned into a run of the real code.
+//
+// Reach (stated, not more): obligations of kind `post` proved in seq mode, on named functions and methods
+// whose inputs can be rebuilt from scalars: parameters of basic type, and (one level of) pointers to Helios
+// structs whose scalar fields (nested value structs included) are set from the model; every other input
+// (slices, maps, interfaces, function values, pointers inside structs, opaque library structs such as
+// time.Time or sync.Mutex) is left at its zero value. The clause is compiled to Go when it uses only
+// parameters, results, fields, literals, arithmetic/comparison/boolean operators, conditionals, old(),
+// len/min/max, string helpers and non-recursive predicates over those; heap-, ghost-, clock- and
+// quantifier-dependent clauses are not replayable. The test is injected with `go test -overlay` (nothing is
+// written into /repo). Only an observed violation of the clause by the real code counts as a reproduction;
+// everything else leaves the report at "no-failing-input-found".
+
+type replayInput struct {
+	GoLHS  string // Go l-value, e.g. c.Server.Port
+	Term   string // SMT term whose model value is wanted
+	Sort   string // Int | Bool | String
+	GoType string // Go type for the conversion
+	Value  string // Go literal (filled from the model)
+}
+
+type goEmit struct {
+	eng     *Engine
+	pkg     *types.Package
+	names   map[string]string // contract name -> Go expression
+	olds    []string          // hoisted pre-state expressions: old_i := <expr>
+	inOld   bool
+	imports map[string]bool
+	depth   int
+}
+
+type notReplayable struct{ why string }
+
+func (g *goEmit) fail(f string, a ...interface{}) string {
+	panic(notReplayable{fmt.Sprintf(f, a...)})
+}
+
+func substExpr(e Expr, m map[string]Expr) Expr {
+	switch n := e.(type) {
+	case EIdent:
+		if r, ok := m[n.Name]; ok {
+			return r
+		}
+		return n
+	case EUn:
+		return EUn{Op: n.Op, X: substExpr(n.X, m)}
+	case EBin:
+		return EBin{Op: n.Op, X: substExpr(n.X, m), Y: substExpr(n.Y, m)}
+	case ECond:
+		return ECond{C: substExpr(n.C, m), A: substExpr(n.A, m), B: substExpr(n.B, m)}
+	case EField:
+		return EField{X: substExpr(n.X, m), F: n.F}
+	case EIndex:
+		return EIndex{X: substExpr(n.X, m), I: substExpr(n.I, m)}
+	case ECall:
+		args := make([]Expr, len(n.Args))
+		for i, a := range n.Args {
+			args[i] = substExpr(a, m)
+		}
+		return ECall{F: n.F, Args: args}
+	}
+	return e
+}
+
+func (g *goEmit) expr(e Expr) string {
+	switch n := e.(type) {
+	case EIdent:
+		if v, ok := g.names[n.Name]; ok {
+			return v
+		}
+		return g.fail("name %s is not an input or result", n.Name)
+	case EInt:
+		return n.V
+	case EStr:
+		return strconv.Quote(n.V)
+	case EBool:
+		return fmt.Sprint(n.V)
+	case ENil:
+		return "nil"
+	case EUn:
+		switch n.Op {
+		case "!":
+			return "(!" + g.expr(n.X) + ")"
+		case "-":
+			return "(-" + g.expr(n.X) + ")"
+		}
+		return g.fail("operator %s", n.Op)
+	case EBin:
+		x, y := g.expr(n.X), g.expr(n.Y)
+		switch n.Op {
+		case "==>":
+			return "(!(" + x + ") || (" + y + "))"
+		case "<==>":
+			return "((" + x + ") == (" + y + "))"
+		case "&&", "||", "==", "!=", "<", "<=", ">", ">=", "+", "-", "*", "/", "%":
+			return "(" + x + " " + n.Op + " " + y + ")"
+		case "++":
+			return "(" + x + " + " + y + ")"
+		}
+		return g.fail("operator %s", n.Op)
+	case ECond:
+		return "hvIf(" + g.expr(n.C) + ", " + g.expr(n.A) + ", " + g.expr(n.B) + ")"
+	case EField:
+		return g.expr(n.X) + "." + n.F
+	case EIndex:
+		return g.expr(n.X) + "[" + g.expr(n.I) + "]"
+	case ECall:
+		switch n.F {
+		case "old":
+			if g.inOld {
+				return g.expr(n.Args[0])
+			}
+			g.inOld = true
+			s := g.expr(n.Args[0])
+			g.inOld = false
+			g.olds = append(g.olds, s)
+			return fmt.Sprintf("old_%d", len(g.olds)-1)
+		case "len", "min", "max":
+			var as []string
+			for _, a := range n.Args {
+				as = append(as, g.expr(a))
+			}
+			return n.F + "(" + strings.Join(as, ", ") + ")"
+		case "hasPrefix":
+			g.imports["strings"] = true
+			return "strings.HasPrefix(" + g.expr(n.Args[0]) + ", " + g.expr(n.Args[1]) + ")"
+		case "contains":
+			g.imports["strings"] = true
+			return "strings.Contains(" + g.expr(n.Args[0]) + ", " + g.expr(n.Args[1]) + ")"
+		}
+		if pd, ok := g.eng.cs.Preds[n.F]; ok && !pd.Rec && pd.Body != nil {
+			if len(pd.Params) != len(n.Args) {
+				return g.fail("predicate %s arity", n.F)
+			}
+			g.depth++
+			if g.depth > 12 {
+				return g.fail("predicate nesting too deep")
+			}
+			m := map[string]Expr{}
+			for i, p := range pd.Params {
+				m[p] = n.Args[i]
+			}
+			s := g.expr(substExpr(pd.Body, m))
+			g.depth--
+			return s
+		}
+		return g.fail("%s(...) depends on the heap, ghost state or the clock", n.F)
+	case EQuant:
+		return g.fail("quantified clause")
+	}
+	return g.fail("expression form %T", e)
+}
+
+// scalarLeaves lists the settable scalar leaves below a Go l-value of type t (value structs are entered,
+// references and opaque library types are skipped).
+func (g *goEmit) scalarLeaves(lhs string, t types.Type, get func(path string) string, path string, out *[]replayInput, depth int) {
+	if depth > 6 {
+		return
+	}
+	switch kindOf(t) {
+	case KInt, KBool, KStr:
+		srt := map[Kind]string{KInt: "Int", KBool: "Bool", KStr: "String"}[kindOf(t)]
+		*out = append(*out, replayInput{GoLHS: lhs, Term: get(path), Sort: srt, GoType: g.typeString(t)})
+	case KStruct:
+		if isOpaqueExternal(t) {
+			return
+		}
+		st := structOf(t)
+		for i := 0; i < st.NumFields(); i++ {
+			f := st.Field(i)
+			if f.Name() == "_" {
+				continue
+			}
+			if !f.Exported() && f.Pkg() != nil && f.Pkg() != g.pkg {
+				continue
+			}
+			g.scalarLeaves(lhs+"."+f.Name(), f.Type(), get, path+"."+f.Name(), out, depth+1)
+		}
+	}
+}
+
+func (g *goEmit) typeString(t types.Type) string {
+	return types.TypeString(t, func(p *types.Package) string {
+		if p == g.pkg {
+			return ""
+		}
+		g.imports[p.Path()] = true
+		return p.Name()
+	})
+}
+
+func smtLitToGo(v, sort, goType string) (string, bool) {
+	v = strings.TrimSpace(v)
+	switch sort {
+	case "Bool":
+		if v == "true" || v == "false" {
+			return v, true
+		}
+	case "Int":
+		neg := false
+		if strings.HasPrefix(v, "(-") {
+			neg = true
+			v = strings.TrimSpace(strings.TrimSuffix(strings.TrimPrefix(v, "(-"), ")"))
+		}
+		if _, err := strconv.ParseInt(v, 10, 64); err != nil {
+			if _, err2 := strconv.ParseUint(v, 10, 64); err2 != nil {
+				return "", false
+			}
+		}
+		if neg {
+			v = "-" + v
+		}
+		return goType + "(" + v + ")", true
+	case "String":
+		if len(v) >= 2 && v[0] == '"' && v[len(v)-1] == '"' {
+			s := strings.ReplaceAll(v[1:len(v)-1], `""`, `"`)
+			var b strings.Builder
+			for i := 0; i < len(s); i++ {
+				if strings.HasPrefix(s[i:], `\u{`) {
+					if j := strings.IndexByte(s[i:], '}'); j > 0 {
+						if cp, err := strconv.ParseInt(s[i+3:i+j], 16, 32); err == nil {
+							b.WriteRune(rune(cp))
+							i += j
+							continue
+						}
+					}
+				}
+				b.WriteByte(s[i])
+			}
+			return goType + "(" + strconv.Quote(b.String()) + ")", true
+		}
+	}
+	return "", false
+}
+
+// parseGetValue parses "((n0 v0) (n1 v1) ...)" where names are simple symbols.
+func parseGetValue(out string) map[string]string {
+	res := map[string]string{}
+	i := strings.Index(out, "((")
+	if i < 0 {
+		return res
+	}
+	s := out[i+1:]
+	for {
+		s = strings.TrimLeft(s, " \n\t\r")
+		if !strings.HasPrefix(s, "(") {
+			break
+		}
+		depth, inStr, end := 0, false, -1
+		for k := 0; k < len(s); k++ {
+			ch := s[k]
+			if inStr {
+				if ch == '"' {
+					if k+1 < len(s) && s[k+1] == '"' {
+						k++
+						continue
+					}
+					inStr = false
+				}
+				continue
+			}
+			switch ch {
+			case '"':
+				inStr = true
+			case '(':
+				depth++
+			case ')':
+				depth--
+				if depth == 0 {
+					end = k
+				}
+			}
+			if end >= 0 {
+				break
+			}
+		}
+		if end < 0 {
+			break
+		}
+		item := s[1:end]
+		if sp := strings.IndexAny(item, " \n\t"); sp > 0 {
+			res[item[:sp]] = strings.TrimSpace(item[sp+1:])
+		}
+		s = s[end+1:]
+	}
+	return res
+}
+
+func findClause(fc *FuncContract, obName string) *Clause {
+	i := strings.LastIndex(obName, "/post/")
+	if i < 0 {
+		return nil
+	}
+	label := obName[i+len("/post/"):]
+	for k := range fc.Ensures {
+		if clauseLabel(fc.Ensures[k], k, "ensures") == label {
+			return &fc.Ensures[k]
+		}
+	}
+	return nil
+}
+
+// TryReplay returns true when the violation was reproduced against /repo's working tree.
+func TryReplay(e *Engine, r *ObResult, rp map[string]interface{}, verifDir string) (confirmed bool) {
+	why := func(s string) bool {
+		rp["replay"] = "not replayed: " + s + " (the model is recorded, the real code was not run)"
+		return false
+	}
+	c := r.Ctx
+	if c == nil || c.fn == nil || c.fc == nil {
+		return why("no function context")
+	}
+	if r.Kind != "post" || c.mode != "seq" {
+		return why("only sequential postconditions are replayed, this is " + r.Kind + " in mode " + c.mode)
+	}
+	fn := c.fn
+	if fn.Parent() != nil || fn.Pkg == nil {
+		return why("closures are not replayed")
+	}
+	cl := findClause(c.fc, r.Name)
+	if cl == nil {
+		return why("clause not found")
+	}
+	g := &goEmit{eng: e, pkg: fn.Pkg.Pkg, names: map[string]string{}, imports: map[string]bool{"testing": true, "fmt": true}}
+	var inputs []replayInput
+	var setup []string
+	var args []string
+	recv := ""
+	defer func() {
+		if x := recover(); x != nil {
+			nr, ok := x.(notReplayable)
+			if !ok {
+				panic(x)
+			}
+			confirmed = why(nr.why)
+		}
+	}()
+	for i, prm := range fn.Params {
+		v, ok := c.paramVals[prm.Name()]
+		name := fmt.Sprintf("in%d", i)
+		if prm.Name() != "" && prm.Name() != "_" {
+			g.names[prm.Name()] = name
+		}
+		t := prm.Type()
+		if !ok {
+			return why("parameter " + prm.Name() + " has no symbolic value")
+		}
+		switch {
+		case kindOf(t) == KInt || kindOf(t) == KBool || kindOf(t) == KStr:
+			setup = append(setup, fmt.Sprintf("var %s %s", name, g.typeString(t)))
+			vv := v
+			g.scalarLeaves(name, t, func(string) string { return vv.T }, "", &inputs, 0)
+		case kindOf(t) == KPtr && structOf(elemTypeOf(t)) != nil && !isOpaqueExternal(elemTypeOf(t)):
+			et := elemTypeOf(t)
+			setup = append(setup, fmt.Sprintf("%s := new(%s)", name, g.typeString(et)))
+			base := pointeeKey(et)
+			ptr := v.T
+			g.scalarLeaves(name, et, func(path string) string {
+				srt := "Int"
+				for _, l := range leavesOf(et) {
+					if l.Path == path {
+						srt = l.Sort
+					}
+				}
+				return fmt.Sprintf("(select %s %s)", c.entryArray(base+path, srt), ptr)
+			}, "", &inputs, 0)
+		case kindOf(t) == KStruct && !isOpaqueExternal(t):
+			setup = append(setup, fmt.Sprintf("var %s %s", name, g.typeString(t)))
+			var lt [][2]string
+			leafTerms(v, t, "", &lt)
+			m := map[string]string{}
+			for _, x := range lt {
+				m[x[0]] = x[1]
+			}
+			g.scalarLeaves(name, t, func(path string) string { return m[path] }, "", &inputs, 0)
+		default:
+			setup = append(setup, fmt.Sprintf("var %s %s // left at its zero value", name, g.typeString(t)))
+		}
+		if i == 0 && fn.Signature.Recv() != nil {
+			recv = name
+		} else {
+			args = append(args, name)
+		}
+	}
+	// results
+	res := fn.Signature.Results()
+	var rnames []string
+	for i := 0; i < res.Len(); i++ {
+		rn := fmt.Sprintf("out%d", i)
+		rnames = append(rnames, rn)
+		g.names[fmt.Sprintf("result%d", i)] = rn
+		if i == 0 {
+			g.names["result"] = rn
+		}
+		if n := res.At(i).Name(); n != "" && n != "_" {
+			g.names[n] = rn
+		}
+		if i < len(c.fc.ResultName) {
+			g.names[c.fc.ResultName[i]] = rn
+		}
+	}
+	clause := g.expr(cl.E)
+	// model values: name each input term and ask the solver that produced the model again
+	if r.Query == "" {
+		return why("query text not kept")
+	}
+	var q strings.Builder
+	q.WriteString(r.Query)
+	var names []string
+	kept := inputs[:0]
+	for _, in := range inputs {
+		if in.Term == "" {
+			continue
+		}
+		// a field the obligation never mentions is unconstrained: it keeps its zero value
+		if i := strings.Index(in.Term, "|H0 "); i >= 0 {
+			j := strings.Index(in.Term[i+1:], "|")
+			if j > 0 && !strings.Contains(r.Query, "(declare-const "+in.Term[i:i+j+2]+" ") {
+				continue
+			}
+		}
+		kept = append(kept, in)
+	}
+	inputs = kept
+	for i, in := range inputs {
+		n := fmt.Sprintf("hvIn%d", i)
+		names = append(names, n)
+		fmt.Fprintf(&q, "(declare-const %s %s)\n(assert (= %s %s))\n", n, in.Sort, n, in.Term)
+	}
+	body := q.String() + "(check-sat)\n(get-value (" + strings.Join(names, " ") + "))\n"
+	var out string
+	for _, sp := range solvers {
+		if !strings.HasPrefix(r.Solver, sp.name) && r.Solver != "" {
+			continue
+		}
+		out = runRaw(sp, body, 30)
+		break
+	}
+	if !strings.HasPrefix(strings.TrimSpace(out), "sat") {
+		out = runRaw(solvers[0], body, 30)
+	}
+	if !strings.HasPrefix(strings.TrimSpace(out), "sat") {
+		return why("the solver did not return values for the inputs")
+	}
+	vals := parseGetValue(out)
+	var assigns []string
+	inRec := map[string]string{}
+	for i := range inputs {
+		lit, ok := smtLitToGo(vals[names[i]], inputs[i].Sort, inputs[i].GoType)
+		if !ok {
+			continue
+		}
+		inputs[i].Value = lit
+		assigns = append(assigns, fmt.Sprintf("%s = %s", inputs[i].GoLHS, lit))
+		inRec[inputs[i].GoLHS] = lit
+	}
+	// the test
+	var b strings.Builder
+	pkgName := fn.Pkg.Pkg.Name()
+	b.WriteString("package " + pkgName + "\n\nimport (\n")
+	var imps []string
+	for p := range g.imports {
+		imps = append(imps, p)
+	}
+	sort.Strings(imps)
+	for _, p := range imps {
+		fmt.Fprintf(&b, "\t%q\n", p)
+	}
+	b.WriteString(")\n\nfunc hvIf[T any](c bool, a, b T) T {\n\tif c {\n\t\treturn a\n\t}\n\treturn b\n}\n\n")
+	b.WriteString("// Replay of a solver counterexample against the real code. Obligation: " + r.Name + "\n// Clause: " + strings.ReplaceAll(cl.Src, "\n", " ") + "\n")
+	b.WriteString("func TestHVReplay(t *testing.T) {\n\tdefer func() {\n\t\tif x := recover(); x != nil {\n\t\t\tfmt.Println(\"HV-REPLAY-PANIC\", x)\n\t\t}\n\t}()\n")
+	for _, s := range setup {
+		b.WriteString("\t" + s + "\n")
+	}
+	for _, s := range assigns {
+		b.WriteString("\t" + s + "\n")
+	}
+	for i, o := range g.olds {
+		fmt.Fprintf(&b, "\told_%d := %s\n", i, o)
+	}
+	call := fn.Name() + "(" + strings.Join(args, ", ") + ")"
+	if recv != "" {
+		call = recv + "." + call
+	}
+	if len(rnames) > 0 {
+		b.WriteString("\t" + strings.Join(rnames, ", ") + " := " + call + "\n")
+		for _, rn := range rnames {
+			b.WriteString("\t_ = " + rn + "\n")
+		}
+	} else {
+		b.WriteString("\t" + call + "\n")
+	}
+	for i := range fn.Params {
+		fmt.Fprintf(&b, "\t_ = in%d\n", i)
+	}
+	b.WriteString("\tif " + clause + " {\n\t\tfmt.Println(\"HV-REPLAY-HELD\")\n\t} else {\n\t\tfmt.Println(\"HV-REPLAY-VIOLATED\")\n\t}\n}\n")
+	src := b.String()
+	rel := strings.TrimPrefix(fn.Pkg.Pkg.Path(), heliosPrefix+"/")
+	if fn.Pkg.Pkg.Path() == heliosPrefix {
+		rel = "."
+	}
+	rp["replay_test"] = src
+	rp["replay_pkg_dir"] = rel
+	rp["replay_inputs"] = inRec
+	outp, cmd := runReplayTest(e.repo, rel, src)
+	rp["replay_cmd"] = cmd
+	rp["replay_output"] = outp
+	switch {
+	case strings.Contains(outp, "HV-REPLAY-VIOLATED"):
+		rp["replay"] = "reproduced: the real code, run on the inputs of the solver's counterexample, violates the clause"
+		return true
+	case strings.Contains(outp, "HV-REPLAY-HELD"):
+		rp["replay"] = "not reproduced: on the inputs rebuilt from the model the real code satisfies the clause (inputs outside the replay adapter's reach were left at zero)"
+	case strings.Contains(outp, "HV-REPLAY-PANIC"):
+		rp["replay"] = "not reproduced: the run panicked on the rebuilt inputs"
+	default:
+		rp["replay"] = "not reproduced: the replay test did not build or did not finish"
+	}
 	return false
 }
+
+func runRaw(sp solverSpec, body string, timeoutS int) string {
+	f := scratchFile()
+	os.WriteFile(f, []byte(sp.pre+prelude+body), 0o644)
+	defer os.Remove(f)
+	ctx, cancel := context.WithTimeout(context.Background(), time.Duration(timeoutS+2)*time.Second)
+	defer cancel()
+	args := sp.cmd(f, timeoutS)
+	out, _ := exec.CommandContext(ctx, args[0], args[1:]...).CombinedOutput()
+	if os.Getenv("HV_DEBUG") != "" {
+		os.WriteFile("/tmp/hv_replay_query.smt2", []byte(sp.pre+prelude+body), 0o644)
+		fmt.Fprintln(os.Stderr, "replay get-value output:", string(out))
+	}
+	return string(out)
+}
+
+// runReplayTest injects src as zz_hv_replay_test.go of package dir rel (overlay; nothing is written to the repo).
+func runReplayTest(repo, rel, src string) (string, string) {
+	dir, err := os.MkdirTemp("", "hvreplay")
+	if err != nil {
+		return err.Error(), ""
+	}
+	defer os.RemoveAll(dir)
+	tf := filepath.Join(dir, "zz_hv_replay_test.go")
+	os.WriteFile(tf, []byte(src), 0o644)
+	ov := map[string]map[string]string{"Replace": {filepath.Join(repo, rel, "zz_hv_replay_test.go"): tf}}
+	ob, _ := json.Marshal(ov)
+	of := filepath.Join(dir, "overlay.json")
+	os.WriteFile(of, ob, 0o644)
+	ctx, cancel := context.WithTimeout(context.Background(), 180*time.Second)
+	defer cancel()
+	args := []string{"test", "-overlay", of, "-vet=off", "-count=1", "-v", "-timeout", "60s", "-run", "^TestHVReplay$", "./" + rel + "/"}
+	cmd := exec.CommandContext(ctx, "go", args...)
+	cmd.Dir = repo
+	cmd.Env = append(os.Environ(), "GOFLAGS=-mod=mod", "GOPROXY=off", "GOSUMDB=off", "GOTOOLCHAIN=local")
+	out, _ := cmd.CombinedOutput()
+	s := string(out)
+	if len(s) > 4000 {
+		s = s[:4000]
+	}
+	return s, "cd " + repo + " && go " + strings.Join(args, " ") + "   (overlay: zz_hv_replay_test.go = the replay_test field of this file)"
+}
+
+// ReplayFile re-runs a stored replay (./check --replay <file>).
+func ReplayFile(repo, file string) int {
+	b, err := os.ReadFile(file)
+	if err != nil {
+		fmt.Println("cannot read", file, err)
+		return 2
+	}
+	var rp map[string]interface{}
+	if err := json.Unmarshal(b, &rp); err != nil {
+		fmt.Println("not a replay file:", err)
+		return 2
+	}
+	fmt.Printf("property=%v obligation=%v\nclause: %v\nstatus on the recorded run: %v (%v)\n", rp["property"], rp["obligation"], rp["clause"], rp["status"], rp["reason"])
+	src, _ := rp["replay_test"].(string)
+	rel, _ := rp["replay_pkg_dir"].(string)
+	if src == "" {
+		fmt.Printf("no executable replay recorded: %v\nfailing path: %v\n", rp["replay"], rp["path"])
+		fmt.Printf("to re-decide the obligation on the current tree run: ./check %v quick\n", rp["property"])
+		return 0
+	}
+	out, cmd := runReplayTest(repo, rel, src)
+	fmt.Println(cmd)
+	fmt.Println(out)
+	if strings.Contains(out, "HV-REPLAY-VIOLATED") {
+		fmt.Printf("VIOLATION property=%v replay=%s\n", rp["property"], file)
+		return 1
+	}
+	fmt.Println("the recorded inputs no longer violate the clause on the current tree")
+	return 0
+}
+
+var _ = ssa.Function{}
